@@ -853,9 +853,12 @@ void GridFourier::clearRefinement(){
 
 void GridFourier::mergeRefinement(){
     if (needed.empty()) return; // nothing to do
+    clearGpuCoefficients();
     int num_all_points = getNumLoaded() + getNumNeeded();
     values.setValues(std::vector<double>(Utils::size_mult(num_outputs, num_all_points), 0.0));
     acceptUpdatedTensors();
+    fourier_coefs = Data2D<double>(num_outputs, 2 * num_all_points); // zero values have zero coefficients
+    max_power = MultiIndexManipulations::getMaxIndexes(points);
 }
 
 void GridFourier::beginConstruction(){
